@@ -531,6 +531,9 @@ CORPUS = [
     ("T", [("Di", [("z", ("D", 2)), ("y", ("B", (), [0.0], [1.0]))]), ("D", 3)]),
     ("Di", [("obs", ("T", [("MD", (2, 2)), ("B", (2,), [0.0, 0.0], [1.0, INF])])), ("act", ("MB", (3,)))]),
     ("T", [("MB", (2, 2)), ("D", 2)]),
+    # Dict spaces with same-typed components (flattening must follow the space's key order, not the sample's insertion order)
+    ("Di", [("a", ("D", 5)), ("b", ("D", 5))]), ("Di", [("p", ("B", (2,), [-1.0, -1.0], [1.0, 1.0])), ("q", ("B", (2,), [-1.0, -1.0], [1.0, 1.0])), ("n", ("D", 3))]),
+    ("T", [("Di", [("x", ("MD", (3, 3))), ("y", ("MD", (3, 3)))]), ("D", 2)]),
 ]
 CORPUS_CANDIDATES = [  # (space index, candidate, tag, leafkind)
     (0, None, "none", "Discrete"), (0, -1, "neg", "Discrete"), (0, 3, "too_large", "Discrete"), (0, 1.5, "frac", "Discrete"),
@@ -680,6 +683,30 @@ def body(ck):
         except Exception as e:  # noqa: BLE001
             j["raised"] = f"{type(e).__name__}: {str(e)[:200]}"
             py_violation(f"C14/canonical/raises-{kind}", "canonical() raised", j)
+        # ---- flatten on Dict members whose insertion order differs from the space's key order:
+        # w swaps the VALUES of two same-typed components and inserts them in swapped ORDER, so v != w as mappings;
+        # an implementation that flattens in the sample's insertion order maps both to the same vector
+        if a[0] == "Di" and len(a[1]) >= 2:
+            dup = [(i, k) for i in range(len(a[1])) for k in range(i + 1, len(a[1])) if src(a[1][i][1]) == src(a[1][k][1])]
+            for (i, k) in dup[:2]:
+                items = [(key, gen_member(rng, c)) for key, c in a[1]]
+                v = OrderedDict(items)
+                order = list(range(len(items))); order[i], order[k] = order[k], order[i]
+                w = OrderedDict((items[order[t]][0], items[t][1]) if t in (i, k) else items[t] for t in range(len(items)))
+                jp = {"check": "flatten determines sample (permuted insertion order)", "space": src(a), "sample1": vsrc(v), "sample2": vsrc(w)}
+                ck.current_case = jp
+                try:
+                    if not (bool(sp.contains(v)) and bool(sp.contains(w))) or vsrc(v) == vsrc(w):
+                        continue
+                    o1 = np.asarray(sp.flatten_sample(v)).tolist(); o2 = np.asarray(sp.flatten_sample(w)).tolist()
+                    jp["flat1"] = o1; jp["flat2"] = o2
+                    add(f"CFlatPair {sl} {val_lit(v)} {val_lit(w)} {listl(xl(z) for z in o1)} {listl(xl(z) for z in o2)}", jp, f"C14/flatten-injective/{kind}-permuted",
+                        key=("flatperm", src(a), i, k))
+                    add(f"CFlatten {sl} {val_lit(w)} {listl(xl(z) for z in o2)} {natl(sp.flat_size)}", jp, f"C14/flatten/{kind}-permuted")
+                    ck.count("flatten:permuted-order-pairs")
+                except Exception as e:  # noqa: BLE001
+                    jp["raised"] = f"{type(e).__name__}: {str(e)[:200]}"
+                    py_violation(f"C14/flatten/raises-{kind}-permuted", "flatten_sample raised on a member with permuted insertion order", jp)
         # ---- samples, their flattening, lerax's own contains on them
         prev = None
         for t in range(n_keys):
